@@ -345,6 +345,7 @@ EmitBehaviour ==
      PrintT(<<"REPLAY", ToJson([kind |-> "beh", mode |-> mode, hdr |-> hdr, sfam |-> sfam, pay |-> pay,
                                 segs |-> segs, g |-> bk.g, c |-> bk.c, st |-> st,
                                 closes |-> (st = "closed" \/ (st = "hdr" /\ written = N)),
+                                slow |-> (st = "closed" /\ mode = "relay" /\ Parse(hdr, index) = "inc"),   \* closed by the front timeout
                                 hlen |-> L])>>)
 
 ParseCuts(h) == {n \in 0..(HLen(h) + 3) : n <= 17 \/ n >= HLen(h) - 1 \/ n \in EdgeSet \/ n % 16 = 0}
